@@ -5,7 +5,7 @@
 
    The model mirrors the code WITH the proposed repair of proposed_fixes/C09-root-unwrapped-visited.diff:
      - the visited set and the root's path are seeded with the root's type AND its unwrapped form.
-   It reproduces the remaining defect (module taken from the qualified name for nested classes). *)
+   A revisited class nested in a class is referred to by its qualified name inside its own module. *)
 From Coq Require Import List Arith Bool PeanoNat String Ascii.
 Import ListNotations.
 Local Open Scope string_scope.
@@ -341,14 +341,26 @@ Definition mkdefer (c u : gty) (var : option str) : node :=
 (* The reference branch of get_type_graph (revisited classes and other named objects):
      qualname = inspection.qualname(child); *rest, refname = qualname.split(".", maxsplit=1)
      module = ".".join(rest) or getattr(child, "__module__", None)
+     if inspect.isclass(child) and rest and child.__module__: module, refname = child.__module__, qualname
      ref  = refs.forwardref(refname, module=module)       -- name.replace(module + ".", "")
      uref = refs.forwardref(unwrapped, module=module)     -- qualname(unwrapped), same replace
    None: no module can be named (refs would search the call stack; not modelled). *)
+Definition is_class (c : gty) : bool :=
+  match c with GClass _ | GScalar _ | GAny | GNone => true | _ => false end.   (* inspect.isclass(child) *)
 Definition ref_parts (E : env) (c : gty) : option (str * str) :=
   let q := qualname E c in
   match split_first dot q with
-  | Some (m, r) => match m with EmptyString => match module_attr E c with Some m' => Some (m', r) | None => None end
-                              | _ => Some (m, r) end
+  | Some (m, r) =>
+      (* a class with a dotted qualified name (nested in a class; typing.Any) is referred to by that name
+         inside its own __module__ *)
+      match (if is_class c then module_attr E c else None) with
+      | Some m' => Some (m', q)
+      | None =>
+          match m with
+          | EmptyString => match module_attr E c with Some m' => Some (m', r) | None => None end
+          | _ => Some (m, r)
+          end
+      end
   | None => match module_attr E c with Some m => Some (m, q) | None => None end
   end.
 Definition mkref (E : env) (c u : gty) (var : option str) : option node :=
@@ -462,10 +474,12 @@ Definition named (E : env) (c : gty) : option (str * str) :=
   | GNewType m n _ | GAlias m n _ | GAliasStr m n _ => Some (m, n)
   | _ => None
   end.
-(* guard of C09_denotes: the replaced child is a module-level named object (a top-level class, leaf
-   class, NewType or alias): no subscripted generic, no union, no class nested in a class *)
+(* guard of C09_denotes: the replaced child is a named object whose reference text is its name: a class
+   (module-level or nested in classes: dotted name), leaf class, NewType or alias; no subscripted generic,
+   no union; the module's own name followed by a dot must not occur inside the name (forwardref strips it) *)
 Definition denotes_guard (E : env) (c : gty) : bool :=
   match named E c with
-  | Some (m, n) => negb (has_char dot n) && negb (String.eqb m "")
+  | Some (m, n) => (is_class c || negb (has_char dot n)) && String.eqb (remove_all (m +++ ".") n) n
+                   && negb (String.eqb m "")
   | None => false
   end.
